@@ -353,19 +353,24 @@ func NewStorage(l atree.BaseStorage) *atree.PersistentSlabStorage {
 	if err != nil {
 		panic(err)
 	}
-	dm, err := cbor.DecOptions{}.DecMode()
+	dm, err := cbor.DecOptions{MaxNestedLevels: DecNesting}.DecMode()
 	if err != nil {
 		panic(err)
 	}
 	return atree.NewPersistentSlabStorage(l, em, dm, DecodeStorable, DecodeTypeInfo)
 }
 
+// DecNesting is the CBOR nesting bound of the harness's decoders (0 = the cbor library's default, 32).
+// A stream whose registers legitimately nest deeper (containers nested in maps whose keys collide on
+// every digest level: about 13 CBOR levels per map) raises it for its own duration.
+var DecNesting int
+
 func EncMode() cbor.EncMode {
 	em, _ := cbor.EncOptions{}.EncMode()
 	return em
 }
 func DecMode() cbor.DecMode {
-	dm, _ := cbor.DecOptions{}.DecMode()
+	dm, _ := cbor.DecOptions{MaxNestedLevels: DecNesting}.DecMode()
 	return dm
 }
 
